@@ -18,7 +18,7 @@ wd = workdir(f"mk-{pid}")
 keys = {}
 classes = {}
 for tier in ("quick", "thorough"):
-    vs, st, by_id, g = mod.records(wd, tier)
+    vs, st, by_id, g = mod.records(wd, tier)[:4]
     for rid, v in vs.items():
         if v["ok"] or v["clause"] == "vocabulary":
             continue
